@@ -1,5 +1,6 @@
 (* C10 proofs, part 3: the property lemmas. *)
 From Slsk Require Import Base.Tac.
+From SlskGen Require Import C10LifeGen.
 From Slsk Require Import C10.Model C10.Prj C10.ListInv C10.Inv.
 
 Lemma inv2_init k t : inv2 (init k t) = true.
@@ -82,27 +83,31 @@ Proof.
   destruct (kd c), (at_ c), (writer c), (in_reg c), (closers c), (detached c), (st c); cbn in *; congruence.
 Qed.
 
+(* a state that counts as closing is covered by the guard of disconnect() (both sets are generated) *)
+Lemma closing_guarded s : closing s = true -> guarded s = true.
+Proof. destruct s; unfold closing, guarded; unflags; intros H; try discriminate; reflexivity. Qed.
+
 (* one-step facts, for EVERY state c (reachable or not) *)
 Lemma send_closing_noop c m : closing (st c) = true -> step c (Send m) = c.
-Proof. intros H. unfold step. destruct (created_guard c (Send m)); [reflexivity|]. cbn [step0]. now rewrite H. Qed.
+Proof. intros H. unfold step. destruct (created_guard c (Send m)); [reflexivity|]. cbn [step0]. rewrite H. unflags. reflexivity. Qed.
 
 Lemma disconnect_idempotent c r : closing (st c) = true ->
   rep (step c (Disconnect r)) = rep c /\ st (step c (Disconnect r)) = st c /\ in_reg (step c (Disconnect r)) = in_reg c.
 Proof.
   intros H. unfold step. destruct (created_guard c (Disconnect r)); [tauto|]. cbn [step0].
-  unfold do_disconnect. rewrite H. norm; tauto.
+  unfold do_disconnect. rewrite (closing_guarded _ H). norm; tauto.
 Qed.
 
 Lemma no_delivery_while_closing c x : closing (st c) = true -> delivered (step c (ReaderGets x)) = delivered c.
 Proof.
   intros H. unfold step. destruct (created_guard c (ReaderGets x)); [reflexivity|]. cbn [step0].
-  destruct (reader c); try reflexivity. unfold do_disconnect. rewrite H. destruct x; norm; reflexivity.
+  destruct (reader c); try reflexivity. unfold do_disconnect. rewrite H, (closing_guarded _ H). unflags. destruct x; norm; reflexivity.
 Qed.
 
 Lemma closed_unregisters c : in_reg (finish_close c) = false /\ st (finish_close c) = CLOSED /\ writer (finish_close c) = WNone.
 Proof. unfold finish_close. norm. cbn. tauto. Qed.
 
-Lemma closing_then_closed c : closing (st c) = false ->
+Lemma closing_then_closed c : guarded (st c) = false ->
   let c' := fst (do_disconnect c) in
   (writer c = WNone -> firstn 2 (rep c') = [CLOSED; CLOSING] /\ in_reg c' = false) /\
   (writer c <> WNone -> firstn 1 (rep c') = [CLOSING] /\ closers c' = S (closers c) /\ in_reg c' = in_reg c).
